@@ -29,7 +29,7 @@ def critical(ctx):
     ok = ra is not None and ra[0] == "call" and ra[1] == "numpy.quantile" and len(ra[2]) >= 2 and T.same(ra[2][1], const(1) - A("alpha"))
     ctx.ob("POL", site, "critical value is the (1 - alpha) quantile of the bootstrap divergences", ok, q.short(tr.retval, 160))
     ch = [e for e in tr.calls() if e.callee == ("lib", "numpy.random.choice")]
-    ctx.ob("ROLE", site, "bootstrap draw", len(ch) == 1, "")
+    ctx.anchor(site, "bootstrap draw", len(ch) == 1, "")
     n = P("sample_size")
     if ch:
         kw = dict(ch[0].kwargs)
@@ -60,7 +60,7 @@ def evaluate(ctx, cname, it):
     site = DET + "._evaluate_kdqtree"
     tr = ctx.trace(cname, "update", assume={"_drift_state": None}, nonnull=("X",))
     kl = [e for e in tr.calls() if e.callee[0] == "foreign" and e.callee[2] == "kl_distance"]
-    ctx.ob("ROLE", site, "divergence computed [%s]" % cname, len(kl) == 1, "")
+    ctx.anchor(site, "divergence computed [%s]" % cname, len(kl) == 1, "")
     if not kl:
         return
     kw = dict(kl[0].kwargs)
@@ -112,7 +112,7 @@ def reference(ctx, cname, it):
     site = DET + "._inner_set_reference"
     tr = ctx.trace(cname, "update", assume={"_drift_state": None, "_kdqtree": None}, nonnull=("X",))
     cs = q.find_calls(tr, site)
-    ctx.ob("ROLE", DET + "._evaluate_kdqtree", "reference built when there is no tree [%s]" % cname, len(cs) == 1, "")
+    ctx.anchor(DET + "._evaluate_kdqtree", "reference built when there is no tree [%s]" % cname, len(cs) == 1, "")
     if not cs:
         return
     if it == "stream":
